@@ -204,6 +204,7 @@ def run(repo, rep):
     from ..symval import INPLACE_EVENTS
     del INPLACE_EVENTS[:]
     _run(repo, rep)
+    common.partial_call_rule(repo, rep, [('geodepy.transform', 'conform7')], 'the covariance matrices')
     # in-place array updates met while evaluating the functions above (element type follows the caller's numbers)
     common.dtype_rule(repo, rep, [('geodepy.transform', 'conform7')])
 
